@@ -126,6 +126,11 @@ class Link(object):
         if self.dead is not None:
             return idx, {'kind': self.dead, 'persistent': True, 'old': True}
         f = self.faults.pop(idx, None)
+        if f is None and op == 'w' and self.cfg.get('drop_link_after_fail') and getattr(self.device, 'fail_fully_read', False):
+            # the link dies right after the device's FAIL was read: one more write (its acknowledgement) still goes through
+            self.acks_after_fail = getattr(self, 'acks_after_fail', 0) + 1
+            if self.acks_after_fail > 1:
+                f = {'kind': 'epipe', 'persistent': True}
         if f is not None:
             self.faults_fired.append((idx, f['kind'], op))
             self.monitor_overread = False
